@@ -2,7 +2,7 @@
 # usage: tools/try_mutant.sh <patch.diff> <property>...   applies the patch to /repo, runs the quick checks, reverts.
 P=$(realpath $1); shift
 git -C /repo apply "$P" || { echo "patch does not apply"; exit 2; }
-trap 'git -C /repo checkout -- . ; git -C /repo status --short | head -3' EXIT
+trap 'git -C /repo checkout -- . ; git -C /repo clean -fdq x/ ; git -C /repo status --short | head -3' EXIT
 for p in "$@"; do
   VERIF_NO_EVIDENCE=1 /verif/check $p --tier quick 2>&1 | grep -E "VIOLATION|KNOWN|steps," | cut -c1-400 | head -6
 done
